@@ -14,6 +14,8 @@
                                         PROG ::= (rank…)  rank ::= ((node…) ((outname node)…))
                                         node ::= (id in name st) | (id data st) | (id recv src tag st)
                                                | (id op st arg…) | (id send data dst tag pass)
+    (dist verifymodel P ((rank pid (pin…))…))
+                                     -> "accepts" | "raises <classes>" (model of verify_distributed_partition)
     (dist skeleton n G ((rank dst tag data)…))
                                      -> per rank "((pid (needs) (recv ids) ((data (send ids))…))…)"
 
@@ -24,6 +26,7 @@
 import PtModel.Sexp
 import PtModel.Dist
 import PtModel.Partition
+import PtModel.Verify
 namespace Pt
 open Pt.Dist
 
@@ -259,6 +262,17 @@ def handleDist : List Sx → Option String
         let groups := (groupSends dataOf p.sends).map fun (d, l) => s!"({d} {showIds l})"
         s!"({pid} {showNatList (chainNeeds pid)} {showIds p.recvs} ({" ".intercalate groups}))") ++ ")"
     some ("(" ++ " ".intercalate ranks ++ ")")
+  | [.atom "verifymodel", p, .list pins] => do
+    -- pins: ((rank pid (name…))…) = partition_input_names per part
+    let P ← parsePartition p
+    let ps ← pins.mapM fun
+      | .list [r, pid, names] => do some (← r.asNat?, ← pid.asNat?, ← names.asNats?)
+      | _ => none
+    let pin : PinOf := fun r pid => match ps.find? (fun x => x.1 == r && x.2.1 == pid) with
+      | some x => x.2.2
+      | none => []
+    let v := verifyViolated P pin
+    some (if v.isEmpty then "accepts" else "raises " ++ " ".intercalate (v.map VDiag.name))
   | [.atom "checkgood", prog] => do
     -- the decidable hypothesis of partition_wf_partial, with the failing part
     let p ← parseProgram prog
